@@ -20,6 +20,16 @@ CLAIMS = {
              "length <= 4 over {clean, notice, erroneous, fatal} (byte-exact stdout + exit status), plus directory/JSON/subprocess modes.",
         ref="DESIGN.md 4.4", technique="Rocq proof over generated+hand model; correspondence with main() (exhaustive to length 4)",
         note=NOTE + "Modelled, not verified: argparse, file selection (C15), the analysis of each file (abstracted as its outcome)."),
+    "C08": dict(
+        text="Theorems about the comparators translated from errors.py on every run: Error.__lt__ is a strict weak order on diagnostics "
+             "with >= 1 highlight (all positions, names, highlight lists), the sort is a permutation, the listed order is ascending in "
+             "the (line, column) of the key highlight and - for diagnostics whose first highlight is position-minimal - in the printed "
+             "(line, column); both formats render the same sorted list and status.  Tied to the code by the translator, by exhaustive "
+             "comparator correspondence on a small domain, byte-exact humanized-format correspondence, and by evaluating order, "
+             "catalogue text, levels, positions and human/JSON agreement on the real reports of ~270 files.",
+        ref="DESIGN.md 4.8", technique="Rocq proof over comparators regenerated from errors.py; differential + report search",
+        note=NOTE + "Trusted: list.sort returns the stable sorted permutation on a strict weak order; json.dumps. The catalogue-text and "
+             "position parts of the property are checked on real reports (search), not proved."),
 }
 
 NOT_YET = {}
